@@ -19,7 +19,7 @@ def plan(ctx):
                               encodes=["reed_solomon_simd::decode", "ReedSolomonDecoder::new/add_original_shard/add_recovery_shard/decode", "DefaultRateDecoder (new, adds, decode_begin)", "DefaultEngine::new (mask 0)"],
                               bounds="entry counts and lengths concrete per harness; indexes 64-bit symbolic; inputs restricted to 'violates a precondition' or 'all originals given' (success paths that restore shards are outside); unwind 19",
                               flags=RV, timeout=1500, mem_gb=10, stubs=RS_STUB, symbolic="every index, shard bytes",
-                              tiers=("quick", "thorough") if (norec and n % 2 == 0) or m["name"].endswith("o2_2_rnone") else ("thorough",)))
+                              tiers=("quick", "thorough") if (norec and n % 3 == 0) or m["name"].endswith("2_1_o2_2_rnone") or m["name"].endswith("2_1_o2_2_2_rnone") else ("thorough",)))
         else:
             hs.append(Harness(f"gen::c10g::{m['name']}", "C10",
                               f"one-shot encode({m['k']},{m['r']}) with original lengths {m['lo']}: returns the truthful Err a streaming ReedSolomonEncoder would (UnsupportedShardCount / TooFew / TooMany / InvalidShardSize / DifferentShardSize with exact fields)",
